@@ -2,6 +2,7 @@ package sym
 
 import (
 	"fmt"
+	"os"
 	"go/constant"
 	"go/token"
 	"go/types"
@@ -244,6 +245,9 @@ func (w *Worker) ensureInit(th *Thread, pkg *ssa.Package) {
 	initFn := pkg.Func("init")
 	if initFn == nil || initFn.Blocks == nil {
 		return
+	}
+	if os.Getenv("SYMGO_TRACE_INIT") != "" {
+		fmt.Fprintf(os.Stderr, "[init] %s (worker %d)\n", path, w.id)
 	}
 	w.inInit++
 	savedCur := th.p.cur
@@ -698,6 +702,12 @@ func (th *Thread) prepareCall(fr *frame, c *ssa.CallCommon) (Value, []Value) {
 	} else {
 		recv, ok := v.(Iface)
 		if !ok || recv.T == nil {
+			if mp := c.Method.Pkg(); mp != nil && th.p.eng.Opaque[mp.Path()] {
+				// value obtained from an opaque package (zero): its methods are no-ops
+				sig := c.Signature()
+				th.p.w.res.OpaqueCalls["(nil "+mp.Path()+" interface)."+c.Method.Name()]++
+				return &Native{Name: "opaque", F: func(*Thread, []Value) Value { return zeroResults(sig) }}, nil
+			}
 			th.goPanicRT("invalid memory address or nil pointer dereference (method call on nil interface)")
 		}
 		m := th.p.eng.lookupMethod(recv.T, c.Method)
